@@ -58,6 +58,10 @@ func (x *c07World) Enabled() []bfs.Op {
 	}
 	ops = append(ops, bfs.Op{Name: "List"}, bfs.Op{Name: "Signers"})
 	o("Add", "K1", "c.past", "c.cur", "c.lapsing", "c.forever", "c.future", "c.zero", "c.edge", "c.vb63", "c.va63", "K2", "c2.past", "c.inverted")
+	if !x.w.noUp {
+		// (upstream mode only: in no-upstream mode these two carry a YSSHCA KeyID and are hidden by design, C09's subject)
+		o("Add", "h1", "h1past") // can then be held in memory AND by the underlying agent
+	}
 	o("AddHardCert", "h1", "h1x", "h3", "h1past", "h2")
 	o("Sign", "K1", "c.cur", "c.past", "c.lapsing", "h1", "h1x", "c.forever", "c.future")
 	o("Remove", "K1", "c.cur", "c.forever", "h1", "c.lapsing")
@@ -276,7 +280,12 @@ func (x *c07World) Apply(op bfs.Op) (fs []bfs.Finding) {
 			}
 		}
 		present := (!uaLocked && expUA[op.Arg]) || (!uaLocked && memNow[op.Arg] && hasKey(post, id.keyBlob) && hasPlain(post, id.keyBlob))
-		if present && r.err != nil {
+		if present && r.err != nil && expUA[op.Arg] && memNow[op.Arg] && !hasPlain(post, id.keyBlob) {
+			// held twice (memory + underlying agent) while the plain key is gone: the shim redirects to the plain key.
+			// C10 owns "signing works for every held identity" and records this history as a known finding; C07's
+			// statement does not demand it
+			x.c.Outcome("sign/dual-held-without-plain-key")
+		} else if present && r.err != nil {
 			add("sign:valid-identity-fails:"+kind(op.Arg), fmt.Sprintf("Sign(%s) failed (%v) although the identity is held and %s", op.Arg, r.err, why(op.Arg, now)))
 		}
 	}
